@@ -273,6 +273,7 @@ def emit_script(rng, reg, policy, style="complete", shuffle=True, ids=None, call
             tuples = []
         elif calls == "all" and total <= max_calls:
             tuples = itertools.product(*doms)
+            lines.append("#full %d" % m["key"])
         else:
             tuples = [tuple(rng.choice(d) for d in doms) for _ in range(min(max_calls, 64))]
         for t in tuples:
